@@ -52,11 +52,17 @@ CHECKS.update({
         engine='csim',
         technique='TLA+ spec Tendermint.tla with Crash/CrashTorn/Restart (Restart = fold of the handlers over the WAL); '
                   'behaviours with crashes at every position and torn last records replayed on real nodes (real WAL files '
-                  'cut inside the last line, real catchupReplay); real OnStart+receiveRoutine probes on copied directories',
+                  'cut inside the last line, real catchupReplay); real OnStart+receiveRoutine probes on copied directories; '
+                  'TLA+ spec WalGroup.tla (the log as a group of rotated files: write buffer, rotation, marker search, start '
+                  'sequence) model-checked with TLC, every edge of its state graph and simulated behaviours replayed on the real '
+                  'pbft.WAL / autofile.Group; WAL rotations injected into the crash behaviours on real nodes',
         level=('model_checking',
                'TLC checks ReplayRestoresVotes, NoEquivocationSent and Agreement with crashes and torn records; on the real node '
                'every restart is compared with the spec state and, independently, with the node\'s own pre-crash projection; '
-               'a real Start() on a clone of the directory must agree with the stepped restart.', 'DESIGN.md §4 C07, §9'),
+               'a real Start() on a clone of the directory must agree with the stepped restart. WalGroup.tla proves that the '
+               'file-group layer implements the abstract log (a start replays exactly the whole input records of the height '
+               'under every history of buffered writes, rotations, crashes, torn records and restarts within the bounds) and '
+               'the real WAL is forced through every transition of the small graph.', 'DESIGN.md §4 C07, §9, §9.4'),
         note=TM_NOTE + ' Process-crash model (no power-loss reordering of writes).'),
     'C12': dict(
         engine='csim',
